@@ -339,9 +339,26 @@ class Ctx:
         summ = json.loads(p.stdout.strip().splitlines()[-1])
         log("[%s] recorded %d events with driver %s (%.1fs); TLC validates with %s"
             % (self.pid, summ["records"], driver, time.time() - t0, module))
+        recs = None
+        # A call that panicked or did not return has no outcome any specification outcome equals:
+        # it is a mismatch by itself (reported with the panic message) and is taken out of the
+        # trace, so that the trace specification never has to compare a panic record with a
+        # value of another shape (TLC's equality is typed).  Tr_Totality judges "abnormal" itself.
+        if module != "Tr_Totality":
+            allrecs = [json.loads(l) for l in open(trace)]
+            bad = [x for x in allrecs if x.get("abnormal") == "T"]
+            if bad:
+                for x in bad:
+                    self.add_mismatch({"case": x, "tag": "", "what": "the call panicked or did not return: %s"
+                                       % json.dumps(x.get("out"))[:300]}, "trace:" + name)
+                recs = [x for x in allrecs if x.get("abnormal") != "T"]
+                with open(trace, "w") as f:
+                    for x in recs:
+                        f.write(json.dumps(x) + "\n")
+                log("[%s]   %d recorded calls panicked or hung" % (self.pid, len(bad)))
+            del allrecs
         r = run_tlc(self.work, module, cfg, env={"TRACE": trace}, timeout=timeout,
                     depth_first=sequential, coverage=False, **kw)
-        recs = None
         if r.error or r.rc != 0:
             if r.error and "Deadlock" in r.error:
                 recs = [json.loads(l) for l in open(trace)]
